@@ -39,9 +39,9 @@ def call(fn, *a):
         return {'exc': cls_name(e), 'ran': sorted({c[0] for c in sympool.CALLS})}
 
 
-def source(ids, fields, extra_meta=()):
+def source(ids, fields, extra_meta=(), ids_name='ids', ids_as_str=False):
     """fields: {name: sym}"""
-    return P.build_layer({'t': 'source', 'ids': list(ids), 'fields': fields}, [])
+    return P.build_layer({'t': 'source', 'ids': list(ids), 'fields': fields, 'ids_name': ids_name, 'ids_as_str': ids_as_str}, [])
 
 
 # ------------------------------------------------------------------------------------------------ Merge
@@ -68,8 +68,11 @@ def case_merge(rnd):
         if rnd.random() < 0.3:
             fields['extra%d' % i] = f's{(10 * i + 9):03d}'
         dsets.append({'ids': s, 'fields': fields})
-    rec = {'kind': 'merge', 'datasets': dsets, 'common': common}
-    layers = [source(d['ids'], d['fields']) for d in dsets]
+    # the key property need not be called `ids`; a dataset may give its ids as a string of one-character ids
+    ids_name = 'keys' if rnd.random() < 0.15 else 'ids'
+    as_str = [bool(d['ids']) and rnd.random() < 0.15 for d in dsets]
+    rec = {'kind': 'merge', 'datasets': dsets, 'common': common, 'ids_name': ids_name, 'ids_as_str': as_str}
+    layers = [source(d['ids'], d['fields'], ids_name=ids_name, ids_as_str=a) for d, a in zip(dsets, as_str)]
     # the dataset objects may have been used before, as the head of a pipeline whose tail has a meta field of its own
     rec['reused'] = []
     for k, l in enumerate(layers):
@@ -85,7 +88,11 @@ def case_merge(rnd):
     except BaseException as e:  # noqa
         rec['build_exc'] = cls_name(e)
         return rec
-    rec['ids'] = list(m.ids)
+    try:
+        rec['ids'] = list(getattr(m, ids_name))
+    except BaseException as e:  # noqa
+        rec['ids_exc'] = cls_name(e)
+        rec['ids'] = []
     rec['fields'] = sorted(x for x in dir(m))
     rows = []
     for i in sorted(set(sum(sets, [])) | {'zz'}):
@@ -199,6 +206,11 @@ def case_filter(rnd):
         if which not in ('keep', 'drop'):
             rec['checkids_before_filter'] = {'same_ids': list(with_chk.ids) == rec['new_ids'],
                                              'same_hash': digest(with_chk._compile('ids').get_hash()[0]) == digest(chain._compile('ids').get_hash()[0])}
+        if which not in ('keep', 'drop'):
+            # ... and a second CheckIds after the filter checks against the FILTERED ids
+            twice = with_chk >> CheckIds()
+            rec['checkids_twice'] = [{'id': i, 'inside': i in rec['new_ids'], 'res': {k: v for k, v in call(twice.image, i).items() if k != 'ran'}}
+                                     for i in ALL[:6] + ['zz']]
     except BaseException as e:  # noqa
         rec['checkids_before_filter'] = {'exc': cls_name(e)}
     # CheckIds on top: foreign ids are rejected, the others untouched
@@ -262,9 +274,12 @@ def case_join(rnd):
         # the left pipeline has an optional field whose input nothing provides: it is left out quietly, with or without the Join
         from connectome import Transform, optional
         left = left >> Transform(mask=optional(Function(P.sym('s022'), 'mask')), __inherit__=True)
-    rec = {'kind': 'join', 'how': how, 'on': on, 'left': {'ids': lids, 'keys': lkeys}, 'right': {'ids': rids, 'keys': rkeys}, 'int_keys': int_keys, 'optional_left': opt_left}
+    custom = nkeys == 1 and not int_keys and rnd.random() < 0.25
+    rec = {'kind': 'join', 'how': how, 'on': on, 'left': {'ids': lids, 'keys': lkeys}, 'right': {'ids': rids, 'keys': rkeys}, 'int_keys': int_keys, 'optional_left': opt_left,
+           'custom_to_key': custom}
     try:
-        j = Join(left, right, on, how=how)
+        # a user-supplied to_key applies to a single key field as well
+        j = Join(left, right, on, how=how, to_key=_custom_key) if custom else Join(left, right, on, how=how)
         rec['ids'] = list(j.ids)
     except BaseException as e:  # noqa
         rec['build_exc'] = cls_name(e)
@@ -272,7 +287,7 @@ def case_join(rnd):
     rows = []
     if int_keys:
         return rec          # compared with a direct computation of the ids (the model orders strings)
-    probe = sorted(set(rec['ids']) | {'zz'} | {(_k(v)) for v in list(lkeys.values()) + list(rkeys.values())})
+    probe = sorted(set(rec['ids']) | {'zz'} | {(('K:' + _k(v)) if custom else _k(v)) for v in list(lkeys.values()) + list(rkeys.values())})
     for i in probe:
         row = {'id': i}
         for f in ['lval', 'rval', 'key']:
@@ -289,6 +304,10 @@ def case_join(rnd):
     return rec
 
 
+def _custom_key(values):
+    return 'K:' + values[0]
+
+
 def _k(vals):
     if len(vals) == 1:
         return vals[0]
@@ -299,8 +318,11 @@ def _k(vals):
 # ------------------------------------------------------------------------------------------------ GroupBy
 def case_group(rnd):
     ids = sorted(rnd.sample(ALL, rnd.randint(1, 6)))
-    mode = rnd.choice(['name', 'names', 'callable'])
+    mode = rnd.choice(['name', 'names', 'callable', 'name-tuple'])
     g1 = {i: rnd.choice(['x', 'y', 'z']) for i in ALL}
+    if mode == 'name-tuple':
+        # the field to group by may hold tuples / lists of strings: the group key is to_key(value), the field keeps its values
+        g1 = {i: rnd.choice([('x',), ('x', 'y'), ['y'], ('z', 'x')]) for i in ALL}
     g2 = {i: rnd.choice(['p', 'q']) for i in ALL}
     counts = collections.Counter()
 
@@ -315,7 +337,7 @@ def case_group(rnd):
                       ('image', Function(sympool.s030, 'i'))])
     rec = {'kind': 'group', 'ids': ids, 'mode': mode, 'g1': g1, 'g2': g2}
     try:
-        if mode == 'name':
+        if mode in ('name', 'name-tuple'):
             layer = src >> GroupBy('g1')
         elif mode == 'names':
             layer = src >> GroupBy(['g1', 'g2'])
@@ -331,6 +353,20 @@ def case_group(rnd):
     for k in rec['new_ids'] + ['zz']:
         rows.append({'key': k, 'image': call(layer.image, k)})
     rec['rows'] = rows
+    if mode in ('name', 'name-tuple', 'names'):
+        # the field the dataset is grouped by is a field like any other: {old id: old value} for the members of the group
+        from connectome.layers.group import to_key as _to_key
+        bad = []
+        for k in rec['new_ids']:
+            members = [i for i in ids if (_to_key(g1[i]) if mode != 'names' else _to_key(g1[i], g2[i])) == k]
+            try:
+                got = layer.g1(k)
+            except BaseException as e:  # noqa
+                got = 'ERR:' + cls_name(e)
+            want = {i: g1[i] for i in members}
+            if got != want:
+                bad.append({'key': k, 'got': to_json(got) if not isinstance(got, str) else got, 'want': to_json(want)})
+        rec['by_field_bad'] = bad[:3]
     rec['ids_after_unknown_key'] = list(layer.ids)        # asking for an unknown group changes nothing
     before = dict(counts)
     list(layer.ids)
@@ -340,6 +376,10 @@ def case_group(rnd):
     if mode == 'names':
         from connectome.layers.group import to_key
         rec['expected_keys'] = {i: to_key(g1[i], g2[i]) for i in ids}
+    if mode == 'name-tuple':
+        from connectome.layers.group import to_key
+        rec['expected_keys'] = {i: to_key(g1[i]) for i in ids}
+        rec['g1'] = {i: list(v) for i, v in g1.items()}
     return rec
 
 
@@ -368,6 +408,9 @@ def case_split(rnd):
 
             def image(image, __part__):
                 return sympool.s040(image, __part__)
+
+            def origin(id, __part__):              # the fields of the Split see the entry they are a part of: its id, not the new one
+                return sympool.s042(id, __part__)
     else:
         class Sp(Split):
             def __split__(id):
@@ -375,6 +418,9 @@ def case_split(rnd):
 
             def image(image, __part__):
                 return sympool.s040(image, __part__)
+
+            def origin(id, __part__):
+                return sympool.s042(id, __part__)
     src = source(ids, {'image': 's041'})
     rec = {'kind': 'split', 'ids': ids, 'parts': {i: parts[i] for i in ids}, 'two_parameters': rec_two}
     try:
@@ -387,6 +433,17 @@ def case_split(rnd):
     for k in rec['new_ids'] + ['zz']:
         rows.append({'key': k, 'image': call(layer.image, k)})
     rec['rows'] = rows
+    where = {new: (old, part) for old in ids for new, part in parts[old]}
+    bad = []
+    for k in rec['new_ids']:
+        try:
+            got = layer.origin(k)
+        except BaseException as e:  # noqa
+            got = 'ERR:' + cls_name(e)
+        want = sympool.render('s042', where[k], ())
+        if got != want:
+            bad.append({'key': k, 'got': got, 'want': want})
+    rec['origin_bad'] = bad[:3]
     before = dict(counts)
     list(layer.ids)
     list(layer.ids)
